@@ -2636,6 +2636,15 @@ impl BytecodeVM {
                 Ok(OpResult::Continue)
             }
 
+            Op::TryGetLocalVar { dst, name } => {
+                let name = self
+                    .get_string_constant(name)
+                    .ok_or_else(|| JsError::internal_error("Invalid variable name constant"))?;
+                let value = interp.env_get_local(&name).unwrap_or(JsValue::Undefined);
+                self.set_reg(dst, value);
+                Ok(OpResult::Continue)
+            }
+
             Op::SetVar { name, src } => {
                 let name = self
                     .get_string_constant(name)
